@@ -2,6 +2,7 @@
 //! trust-platform code.  Every sub-command either turns scripts (the environment's half of
 //! a behaviour) into recorded ndjson traces of the real code, or generates scripts.
 mod cycle;
+mod dbgwrite;
 mod debug;
 mod det;
 mod emit;
@@ -38,6 +39,7 @@ fn main() {
         "pairing-gen" => pairing::gen(rest), "pairing-run" => pairing::run(rest),
         "resource-run" => resource::run(rest),
         "stcore-gen" => stcore::gen(rest),
+        "dbgwrite-run" => dbgwrite::run(rest),
         "emit-run" => emit::run(rest),
         "resfault-run" => resfault::run(rest),
         "stfeat" => stfeat::run(rest),
